@@ -9,11 +9,13 @@ package flight12
 //symgo:replace github.com/pion/dtls/v3/pkg/crypto/prf.PreMasterSecret zzSrvECDH
 //symgo:replace github.com/pion/dtls/v3/pkg/crypto/prf.MasterSecret zzSrvMasterSecret
 //symgo:replace github.com/pion/dtls/v3/pkg/crypto/prf.ExtendedMasterSecret zzSrvExtMasterSecret
+//symgo:replace github.com/pion/dtls/v3/pkg/crypto/prf.VerifyDataClient zzSrvVerifyDataClient
+//symgo:stub prf.VerifyDataClient (used by flight4Parse since the fix of finding F5 to check the client's Finished) is an uninterpreted function of (master secret, transcript) that records the master secret it is keyed with
 //symgo:stub handshakecrypto.VerifyCertificateVerify (X.509 leaf parsing + signature verification, Go std) and handshakecrypto.VerifyClientCert (x509 chain building against the ClientCAs pool) are recorders that return an ARBITRARY verdict chosen by the solver; what they are asked to verify (message bytes, certificate list, pool) is recorded and asserted on. zzHcVerifySignature / zzHcVerifyChain (crypto_wrappers.go) check the wrappers themselves down to the std calls
 //symgo:stub prf.PreMasterSecret (ECDH) is an uninterpreted function of (peer public key, own private key, curve); prf.MasterSecret / prf.ExtendedMasterSecret record the pre-master secret they receive and return a marker value; the cipher suite is a harness fake whose Init records the master secret and the authentication facts established so far
 //symgo:stub LocalPSKCallback, VerifyPeerCertificate and VerifyConnection are harness callbacks with arbitrary verdicts that record their arguments
 //symgo:assume messages reach flight4Parse through the handshake cache as complete, unfragmented messages whose 12-byte header agrees with the cache metadata (what Conn stores after reassembly); a cache item at epoch 1 is a message that was decrypted with the keys installed by CipherSuite.Init (record protection is C05)
-//symgo:outside a live rogue peer; the verification of the client's Finished verify_data (C04, finding F5); ClientAuth values outside the five defined policies (WithClientAuth refuses them) are only checked for the policy-independent part
+//symgo:outside a live rogue peer; which messages the client's Finished verify_data covers (C04, finding F5); ClientAuth values outside the five defined policies (WithClientAuth refuses them) are only checked for the policy-independent part
 
 import (
 	"context"
@@ -78,6 +80,9 @@ type zzSrvRec struct {
 	initVPCCalls         int
 	queuedCalls          int
 	queuedBeforeInit     bool
+	// client Finished check (present since the F5 fix)
+	vdcCalls             int
+	vdcMaster, vdcWant   []byte
 }
 
 var zzSrv zzSrvRec
@@ -121,6 +126,14 @@ func zzSrvMasterSecret(pre, _, _ []byte, _ prf.HashFunc) ([]byte, error) {
 	zzSrv.preMaster = pre
 
 	return zzSrvMasterMarker, nil
+}
+
+func zzSrvVerifyDataClient(master, transcript []byte, _ prf.HashFunc) ([]byte, error) {
+	zzSrv.vdcCalls++
+	zzSrv.vdcMaster = master
+	zzSrv.vdcWant = zzsymUF("VerifyDataClient", 12, master, transcript)
+
+	return zzSrv.vdcWant, nil
 }
 
 func zzSrvExtMasterSecret(pre, _ []byte, _ prf.HashFunc) ([]byte, error) {
@@ -266,6 +279,7 @@ type zzSrvScenario struct {
 	hasVConn   bool
 	nextSeq    int
 	finRaw     []byte
+	verifyData []byte
 }
 
 const (
@@ -425,7 +439,8 @@ func zzSrvBuild(suiteKind, certShape int, hasCV bool, schemeHash, schemeSig byte
 		seq++
 	}
 	sc.nextSeq = seq
-	sc.finRaw = zzSrvMsg(handshake.TypeFinished, seq, zzsymBytes("verify_data", 12))
+	sc.verifyData = zzsymBytes("verify_data", 12)
+	sc.finRaw = zzSrvMsg(handshake.TypeFinished, seq, sc.verifyData)
 	switch finished {
 	case zzSrvFinEpoch1:
 		sc.cache.Push(sc.finRaw, 1, uint16(seq), handshake.TypeFinished, true)
@@ -481,6 +496,11 @@ func zzSrvCheckAccepted(sc *zzSrvScenario) {
 	// the client's Finished was read under the new keys (a cleartext Finished does not count)
 	zzsymAssert(sc.finished != zzSrvFinNone && sc.finished != zzSrvFinEpoch0, "srv12_accept_needs_protected_finished")
 	zzsymAssert(zzSrv.initCalls == 1, "srv12_accept_needs_keys")
+	if zzSrv.vdcCalls > 0 {
+		// when the client's Finished is checked (C04), it is checked against the secret this handshake derived
+		zzsymAssert(zzsymEqBytes(zzSrv.vdcMaster, zzSrvMasterMarker), "srv12_client_finished_keyed_with_derived_master_secret")
+		zzsymAssert(zzsymEqBytes(sc.verifyData, zzSrv.vdcWant), "srv12_client_finished_matches")
+	}
 
 	present := len(sc.certs) != 0
 	pol := dtlsconfig.ClientAuthType(sc.clientAuth)
